@@ -1015,7 +1015,9 @@ fn oracle(sc: &Scenario, obs: &[RunObs]) -> Option<Violation> {
                         version_of(n)
                     } else if !o.faults_fired_read_side {
                         // falls back to (or simply uses) what was there, if readable
-                        match (&o.before, o.completed_200.is_empty()) {
+                        // (a close-delimited body that lost only trailing white
+                        // space is a complete document and may have been installed)
+                        match (&o.before, acceptable.is_empty()) {
                             // nothing new arrived: what was there must be used
                             (Some(b), true) => version_of(b),
                             // a 200 response completed (currency data or not) and may
